@@ -147,6 +147,7 @@ int main(int argc, char** argv) {
         else if (a == "--param") { Str kv = need("--param"); size_t e = kv.find('='); if (e == Str::npos) ctx.params[kv] = "1"; else ctx.params[kv.substr(0, e)] = kv.substr(e + 1); }
         else { fprintf(stderr, "unknown argument %s\n", a.c_str()); usage(); return 2; }
     }
+    if (ctx.tier == "thorough") ctx.set_bitmap_bits((size_t)1 << 27);
     const Monitor* mon = nullptr;
     for (auto& m : monitors()) if (ctx.monitor == m.name) mon = &m;
     if (!mon) { usage(); return 2; }
